@@ -42,6 +42,18 @@ impl C08Checker {
         let src = s.resolve_expr(expr);
         let fs = s.world.lock().fs.clone();
         let r = reference_outputs(s, &fs, &dir, &prefs, &src);
+        // the preference values the session holds must be values a fresh session accepts (otherwise an earlier call
+        // left the session in a state that cannot be reached from a fresh one with the same preference values)
+        if let Some((n, e)) = r.setup_errors.iter().find(|(n, _)| n != "set_rules_dir" && n != "harness") {
+            let held = prefs.iter().find(|(pn, _)| pn == n).map(|(_, v)| v.clone()).unwrap_or_default();
+            s.violation_g(
+                "state-not-reproducible",
+                format!("the session holds a value of {} that a fresh session rejects", n),
+                "the session holds a preference value that a fresh session rejects".into(),
+                format!("get_preference({:?}) = {:?} in the session; a fresh session answers set_preference({:?},{:?}) with {}", n, held, n, held, e),
+            );
+            return;
+        }
         let pairs = [("set_mathml", norm(&set), norm(&r.set_mathml)), ("get_spoken_text", norm(&outs.speech), norm(&r.speech)), ("get_braille", norm(&outs.braille), norm(&r.braille)), ("get_overview_text", norm(&outs.overview), norm(&r.overview))];
         for (name, got, exp) in pairs.iter() {
             // a panic on either side is reported by the panic check; equality of two panics is not a recovery statement
